@@ -342,9 +342,9 @@ MANIFEST_TEXT["C12"] = dict(
 
 CHECKS["C13"] = dict(
     {"quick": {"tests": [{"test": "TestC13", "checks": 1500, "subchecks": KINDS7},
-                         {"test": "TestC13Conc", "checks": 150, "subchecks": 1, "race": True}]},
+                         {"test": "TestC13Conc", "checks": 300, "subchecks": 1, "race": True}]},
      "thorough": {"shards": 16, "tests": [{"test": "TestC13", "checks": 4000, "subchecks": KINDS7},
-                                          {"test": "TestC13Conc", "checks": 400, "subchecks": 1, "race": True}]}},
+                                          {"test": "TestC13Conc", "checks": 800, "subchecks": 1, "race": True}]}},
     replay_race=True,
     rule=("(1) for each of the 7 kinds: a prior history H1 (any ops, 0..4 fills), then Reset(nil) or Reset(data, spare "
           "capacity), then H2 (any ops incl. ReadAt/ByteAt/Parse(nil)); the twin is a new parser of the same configuration "
